@@ -61,6 +61,12 @@ DIRTY = [
     ("if-noelse-false", "if (gA > 100) then {1}"),
     ("nested-call", "call {call {[1, 2]; 3}}"),
     ("callw", "5 call {[_this]; _this + 1}"),
+    # an operator applied to an undefined variable produces no value: the array / operator behind it is short of operands
+    # in its own scope (an error there) - what the enclosing scopes have pending is not its to take
+    ("short-array", '4; ["n", str gUndefinedVariable]'),
+    ("short-array-3", '4; [1, str gUndefinedVariable, str gUndefinedVariable]'),
+    ("short-binary", '4; (str gUndefinedVariable) + (str gUndefinedVariable)'),
+    ("short-array-caught", '{4; ["n", str gUndefinedVariable]} except__ {5}'),
 ]
 CONTAINERS = [
     ("array", "gR = [11, call {%s}, 33]"),
